@@ -17,8 +17,8 @@ class C14(Prop):
   action_kinds = ("post_fifo", "post_lifo", "post_lifo")
   rule = ("Hypothesis-generated histories on a real HsmWithQueues: a generated chart whose "
           "handlers post_fifo/post_lifo from entry/exit/init/user-signal clauses (bounded by a "
-          "budget so chains terminate) x a list of up to 25 operations from post_fifo, "
-          "post_lifo, next_rtc, complete_circuit; every event carries a unique id. Oracle: a "
+          "budget so chains terminate) x up to 3 posts made before start_at x a list of up to 25 operations from "
+          "post_fifo, post_lifo, next_rtc, complete_circuit; every event carries a unique id. Oracle: a "
           "model double-ended queue driven by the same operations, with the handler-made posts "
           "placed where the reference chart model says the clause runs; after every operation "
           "the ids dispatched (one dispatch call per step) equal the model's pops, each id at "
@@ -36,7 +36,7 @@ class C14(Prop):
   ]
 
   def strategy(self, tier):
-    return queued.history(kinds=self.kinds, action_kinds=self.action_kinds, bulk=True)
+    return queued.history(kinds=self.kinds, action_kinds=self.action_kinds, bulk=True, pre=True)
 
   def compare_common(self, o, exp_dispatched, seen, where):
     if o.dispatched != exp_dispatched:
@@ -47,9 +47,12 @@ class C14(Prop):
   def check(self, case, stats):
     spec = case["spec"]
     budget = case.get("budget", 30)
-    model = queued.QModel(spec, budget=budget)
+    model = queued.QModel(spec, budget=budget, bounded=bool(case.get("at_capacity")))
     try:
       real = queued.RealQueued(case, budget=budget)
+      for op in case.get("pre_ops") or ():
+        model.external(op)
+        self.real_call(lambda: real.apply(op), "before start_at: %s" % op)
       model.start(case["start"])
       o = self.real_call(real.start, "start_at")
       if o.dispatched:
